@@ -7,6 +7,11 @@ HOOK_COMMITS = subprocess.run(
     capture_output=True, text=True).stdout.strip().splitlines()
 
 CHECKS = {
+ "C18": dict(
+   text="Two monitors over the real engine inside the simulator. (i) Data races: the harness is built with -race and the Go race detector is the invariant monitor; 2-5 goroutines drive overlapping transactions through shared flows and quotas of the real HandlingDataManager together with a metrics read, a proxy-error report and a PUT /configuration reload, and, in policy mode, transaction lookups with policy swaps, a fail-safe revert and the vacuum goroutines; interleavings come from fake-time delays at every instrumented lock site, a pure function of seed and call site (the token scheduler is not used here: its hand-off would add happens-before edges and hide races). Every report with an engine frame is a violation, identified by its pair of top engine frames. (ii) Serial equivalence: 2-3 transactions overlap under the token scheduler with the clock frozen; their outcome vector must equal that of one of the N! serial orders on fresh engines. Sampling, not proof.",
+   design_ref="DESIGN.md section 4 C18",
+   note="Trusted: the Go race detector (happens-before, so reports do not depend on physical overlap); GORACE halt_on_error=0 so that one run yields all its reports; the implementation as its own sequential specification for (ii); one open known finding (per-flow transactional context written by every transaction) is listed in known-findings.json and printed as KNOWN-FINDING.",
+   technique="deterministic simulation with the race detector as invariant monitor (stateless seeded delays at lock sites) plus schedule exploration against all serial orders"),
  "C05": dict(
    text="Seeded deterministic simulation with one OS process per generated configuration, so that a fatal error of the engine (stack overflow, panic) is an observable outcome: arbitrary small flow graphs (a well-formed skeleton plus extra connections incl. self-loops, back edges, cycles under one condition and in root-less response directions, undeclared names, bogus conditions, textual YAML damage) and quota files with the usual mistakes go through the gateway's own dry-run validation; accepted ones are loaded for real under both load orders and driven with 10 transactions (random steering, malformed and large bodies, odd paths). R1 validation returns, R2 accepted => real load succeeds, R3 accepted => every transaction side finishes within 1000 processor executions without panic or process death. Sampling of the configuration space, not enumeration.",
    design_ref="DESIGN.md section 4 C05",
